@@ -134,6 +134,31 @@ fn build(l: &Logical, h: u32, asyncm: bool, rng: &mut Rng) -> Result<Vec<u8>, St
     arch.save().map_err(e)
 }
 
+/// Unrelated use of the library in the same process and thread.
+fn pollution(rng: &mut Rng) {
+    use pmtiles2::util::{write_directories, WriteDirsOverflowStrategy};
+    // directory writers with unusual initial leaf sizes, all codecs
+    let list: Vec<pmtiles2::Entry> = (0..30_000u64)
+        .map(|k| pmtiles2::Entry { tile_id: k * 3 + (k % 2), offset: k * 100 + rng.below(50), length: 1 + (rng.below(90) as u32), run_length: 1 })
+        .collect();
+    for (codec, start) in [(R::C_NONE, 1_000_000usize), (R::C_GZIP, 65_536), (R::C_ZSTD, 8191), (R::C_NONE, 7)] {
+        let mut out = std::io::Cursor::new(Vec::new());
+        let _ = guard(|| write_directories(&mut out, &list, crate::gen::comp(codec), Some(WriteDirsOverflowStrategy::OnlyLeafPointers { start_size: Some(start) })));
+    }
+    // an archive of another shape, written and opened
+    let oc = R::CODECS[rng.usize(0, 3)];
+    let other = crate::gen::gen_logical(rng, crate::gen::SizeClass::Medium, oc);
+    if let Ok(Ok(b)) = guard(|| crate::checks::common::write_sync(other.build())) {
+        let _ = guard(|| pmtiles2::PMTiles::from_bytes(b).map(|mut p| p.get_tile_by_id(0).map(|t| t.map(|v| v.len()))));
+    }
+    // failing calls
+    let _ = guard(|| pmtiles2::PMTiles::from_bytes(vec![0x50u8; 300]).map(|p| p.num_tiles()));
+    let _ = guard(|| pmtiles2::util::decompress_all(pmtiles2::Compression::ZStd, &[1, 2, 3]).map(|v| v.len()));
+    // id helpers with far-apart arguments
+    let _ = guard(|| pmtiles2::util::zxy(R::zoom_base(20) + 5));
+    let _ = guard(|| pmtiles2::util::zxy(3));
+}
+
 fn rewrite(b: &[u8], asyncm: bool) -> Result<Vec<u8>, String> {
     let a = if asyncm { Arch::open_async(b.to_vec()) } else { Arch::open_sync(b.to_vec()) }.map_err(|e| e.to_string())?;
     a.save().map_err(|e| e.to_string())
@@ -269,7 +294,14 @@ pub fn run(ctx: &mut Ctx) {
         ];
         let mut outs: Vec<(String, Vec<u8>)> = Vec::new();
         let mut failed = false;
+        let pollute = (i / 4) % 32 == 3 || i % 16 == 5;
         for h in 0..9u32 {
+            if h == 1 && pollute {
+                // unrelated library calls between two builds of the same archive: nothing they leave behind in the process
+                // (statics, thread-locals, caches) may show in later output
+                pollution(&mut rng);
+                ctx.count("archives_built_before_and_after_unrelated_calls");
+            }
             for asyncm in [false, true] {
                 if asyncm && !(h == 0 || h == 2 || h == 4 || h == 6) {
                     continue;
